@@ -288,3 +288,49 @@ func sizeClass(n int) string {
 }
 
 func fmtTheta(t []float64) string { return fmt.Sprintf("%.17g", t) }
+
+// shifts: common constants added to ALL log-weights.  The weighted MLE is
+// invariant under a common shift of the log-weights; an estimator that
+// exponentiates unrescaled weights loses them below about -700 (denormals,
+// then 0) and overflows above +709.
+var shifts = []float64{-50, -700, -740, -1000, 700}
+
+// activeShift is set by the closed.shift.* monitors for the duration of one
+// case (from cs.Index only) and read by applyShift; nil elsewhere, so that the
+// streams of the other monitors (and the directed replays) are unchanged.
+var activeShift *float64
+
+// applyShift turns the drawn log-weights into finite (or partly -Inf) base
+// weights plus the active common shift.
+func applyShift(r *prng.Rand, gamma []float64, wclass string, n int) ([]float64, string) {
+	if activeShift == nil {
+		return gamma, wclass
+	}
+	c := *activeShift
+	if gamma == nil || wclass == "weighted" {
+		// base: log responsibilities (also replaces the wide-offset class, whose
+		// own offset would mask the shift)
+		gamma = make([]float64, n)
+		for i := range gamma {
+			gamma[i] = r.Uniform(-8, 0)
+		}
+		wclass = "weighted"
+	}
+	for i := range gamma {
+		gamma[i] += c // -Inf stays -Inf
+	}
+	return gamma, fmt.Sprintf("%s,shift=%g", wclass, c)
+}
+
+func withShift(cs interface{ Cover(string) }, index int, f func()) {
+	c := shifts[index%len(shifts)]
+	activeShift = &c
+	defer func() { activeShift = nil }()
+	cs.Cover(fmt.Sprintf("shift:%g", c))
+	f()
+}
+
+// extremeShift: the batch interface (Initialize / NewObservation one weight at a
+// time / GetEstimate) cannot rescale the weights of the normal estimators; its
+// documented use is with responsibilities, not judged beyond |shift| 50.
+func extremeShift() bool { return activeShift != nil && math.Abs(*activeShift) > 50 }
